@@ -93,13 +93,14 @@ RefitAttempt ==
                /\ ok' = ok
   /\ UNCHANGED pattern
 
-\* all attempts failed: the previous hyperparameters are kept (exit flag -1)
+\* all NTryFit attempts failed: the code falls out of the loop with `res` never assigned and
+\* `return gp, new_hyp, res, success` raises UnboundLocalError -- the run aborts.  (Ten
+\* consecutive failures are outside C16's quantifier, runs of 2-4; with MaxFaults <= 4 this
+\* action is unreachable in the checked instances and is kept for fidelity.)
 RefitGiveUp ==
   /\ phase = "refit" /\ att = NTryFit
-  /\ att' = 0 /\ refits' = refits + 1
-  /\ phase' = IF refits + 1 >= NRefit THEN "done" ELSE "refit"
-  /\ nX' = N0 /\ nY' = N0 /\ nS' = IF HasNoise THEN N0 ELSE -1
-  /\ UNCHANGED <<pattern, fi, hypKind, ok>>
+  /\ phase' = "aborted" /\ ok' = FALSE
+  /\ UNCHANGED <<pattern, fi, att, nX, nY, nS, refits, hypKind>>
 
 Done == phase \in {"done", "aborted"} /\ UNCHANGED vars
 
